@@ -23,6 +23,10 @@ Proof. reflexivity. Qed.
 
 Global Opaque HS DESC NAMEB MAXEL RES2.
 
+Lemma bind_ok_h {A B} (r : Res A) (g : A -> Res B) b :
+  bindR r g = Ok b -> exists a, r = Ok a /\ g a = Ok b.
+Proof. destruct r; cbn; intros H; try discriminate. eauto. Qed.
+
 (** * small list facts *)
 Lemma zeros_length n : length (zeros n) = n.
 Proof. apply repeat_length. Qed.
@@ -388,3 +392,103 @@ Qed.
 
 Theorem unstorable_rejected f : check_storable f = false -> create f = Rejected.
 Proof. intros H. unfold create. rewrite H. reflexivity. Qed.
+
+(** * histories over several year files *)
+Lemma storable_set_year f y : storable f = true -> in_ity I16 y -> storable (set_year f y) = true.
+Proof.
+  unfold storable, set_year. cbn [t_version t_descr t_year t_tf t_rectype t_nelems t_reclen t_names t_types].
+  intros H Hy. apply in_ityb_spec in Hy. rewrite !andb_true_iff in *.
+  destruct H as [[[[[[[[[[[[H1 H2] H3] H4] H5] H6] H6'] H7] H8] H9] H10] H11] H12].
+  repeat split; assumption.
+Qed.
+
+(** every year file holds the header of the created schema under its own year *)
+Definition files_inv (f : tbi) (st : files) : Prop :=
+  Forall (fun e => in_ity I16 (fst e) /\ encode_header (set_year f (fst e)) = Ok (snd e)) st.
+
+Lemma flookup_in y st h : flookup y st = Some h -> In (y, h) st.
+Proof.
+  induction st as [|[y' h'] r IH]; cbn; [discriminate|].
+  destruct (Z.eqb_spec y y') as [->|_]; intros H; [inversion H; left; reflexivity|right; auto].
+Qed.
+
+Lemma fset_inv f y h st : files_inv f st -> in_ity I16 y -> encode_header (set_year f y) = Ok h ->
+  files_inv f (fset y h st).
+Proof.
+  unfold files_inv. induction st as [|[y' h'] r IH]; cbn; intros Hs Hy He.
+  - constructor; [split; assumption|constructor].
+  - inversion Hs as [|? ? [Ha Hb] Hr]; subst. cbn [fst snd] in *.
+    destruct (Z.eqb_spec y y') as [->|_]; constructor; cbn [fst snd]; auto.
+Qed.
+
+Lemma ystep_inv f st w : storable f = true -> files_inv f st ->
+  in_ity I16 (fst w) -> (1 <= wop_idx (snd w) < 2 ^ 31)%Z ->
+  exists st', ystep f st w = Ok st' /\ files_inv f st'.
+Proof.
+  intros Hs Hinv Hy Hi. destruct w as [y op]. cbn [fst snd] in *. unfold ystep.
+  pose proof (storable_spec _ Hs) as Hsp.
+  assert (Hrl : (0 <= t_reclen f < 2 ^ 31)%Z).
+  { pose proof (sp_rl _ Hsp) as H. pose proof (sp_rl0 _ Hsp). unfold in_ity, ity_min, ity_max in H.
+    cbn [ity_signed ity_bits] in H. norm_pows. change (2 ^ 31)%Z with 2147483648%Z. lia. }
+  destruct (flookup y st) as [h|] eqn:E.
+  - apply flookup_in in E. unfold files_inv in Hinv. rewrite Forall_forall in Hinv.
+    destruct (Hinv _ E) as [_ He]. cbn [fst snd] in He.
+    destruct (header_roundtrip _ (storable_set_year f y Hs Hy)) as (h' & He' & Hl & _).
+    assert (h' = h) by congruence. subst h'.
+    rewrite apply_write_noop by assumption. eexists. split; [reflexivity|].
+    apply fset_inv; [apply Forall_forall; exact Hinv|exact Hy|exact He].
+  - destruct (header_roundtrip _ (storable_set_year f y Hs Hy)) as (h & He & Hl & _).
+    rewrite He. cbn [bindR]. rewrite apply_write_noop by assumption. eexists. split; [reflexivity|].
+    apply fset_inv; assumption.
+Qed.
+
+Lemma yrun_inv f : forall ws st, storable f = true -> files_inv f st -> years_ok ws = true ->
+  exists st', yrun f st ws = Ok st' /\ files_inv f st'.
+Proof.
+  induction ws as [|w ws IH]; intros st Hs Hinv Hok; [exists st; split; [reflexivity|exact Hinv]|].
+  unfold years_ok in Hok. cbn [forallb map] in Hok. unfold writes_ok in Hok. cbn [forallb] in Hok.
+  rewrite !andb_true_iff in Hok. destruct Hok as [[Hy Hys] [[Ha Hb] Hws]].
+  apply in_ityb_spec in Hy. apply Z.leb_le in Ha. apply Z.ltb_lt in Hb.
+  destruct (ystep_inv f st w Hs Hinv Hy (conj Ha Hb)) as (st1 & H1 & Hinv1).
+  cbn [yrun]. rewrite H1. cbn [bindR]. apply IH; [exact Hs|exact Hinv1|].
+  unfold years_ok, writes_ok. rewrite Hys, Hws. reflexivity.
+Qed.
+
+Lemma latest_in st : st <> [] -> exists y h, latest st = Some (y, h) /\ In (y, h) st.
+Proof.
+  induction st as [|[y h] r IH]; [contradiction|]. intros _. cbn [latest].
+  destruct r as [|e r'].
+  - cbn. exists y, h. split; [reflexivity|left; reflexivity].
+  - destruct IH as (y' & h' & -> & Hin); [discriminate|].
+    destruct (y <? y')%Z; [exists y', h'; split; [reflexivity|right; exact Hin]|exists y, h; split; [reflexivity|left; reflexivity]].
+Qed.
+
+Lemma yrun_nonempty f : forall ws st st', st <> [] -> yrun f st ws = Ok st' -> st' <> [].
+Proof.
+  assert (Hf : forall y h st, fset y h st <> []).
+  { intros y h [|[y' h'] r]; cbn; [discriminate|]. destruct (Z.eqb y y'); discriminate. }
+  induction ws as [|[y op] ws IH]; intros st st' Hne H; cbn [yrun] in H; [inversion H; subst; exact Hne|].
+  apply bind_ok_h in H as (st1 & H1 & H2). apply (IH st1 st'); [|exact H2].
+  unfold ystep in H1. destruct (flookup y st).
+  - inversion H1. apply Hf.
+  - apply bind_ok_h in H1 as (h & _ & H1). inversion H1. apply Hf.
+Qed.
+
+(** create, write into any years at indices >= 1, restart: the latest year file reports the created schema *)
+Theorem reload_history_ok f ws : storable f = true -> years_ok ws = true ->
+  exists y, reload_history f ws = Ok (set_year f y).
+Proof.
+  intros Hs Hok. unfold reload_history, run_history.
+  destruct (header_roundtrip f Hs) as (h0 & He & Hl & _).
+  unfold create. rewrite (storable_check f Hs), He. cbn [bindR].
+  assert (Hinv0 : files_inv f [(t_year f, h0)]).
+  { constructor; [|constructor]. cbn [fst snd]. split; [exact (sp_year _ (storable_spec _ Hs))|].
+    replace (set_year f (t_year f)) with f by (destruct f; reflexivity). exact He. }
+  destruct (yrun_inv f ws _ Hs Hinv0 Hok) as (st & Hrun & Hinv). rewrite Hrun. cbn [bindR].
+  assert (Hne0 : [(t_year f, h0)] <> []) by discriminate.
+  destruct (latest_in st) as (y & h & Hlat & Hin); [apply (yrun_nonempty f ws _ _ Hne0 Hrun)|].
+  rewrite Hlat. exists y. unfold files_inv in Hinv. rewrite Forall_forall in Hinv.
+  destruct (Hinv _ Hin) as [Hy Hh]. cbn [fst snd] in *.
+  destruct (header_roundtrip _ (storable_set_year f y Hs Hy)) as (h' & He' & _ & Hr).
+  assert (h' = h) by congruence. subst h'. exact Hr.
+Qed.
